@@ -60,13 +60,43 @@ def run(ctx):
                 n_dis += 1
                 if n_dis <= 3:
                     filt.report_disagreement(ctx, "negated triple: run_pipeline differs from the specification", db, cmds, drv)
+        # the same criterion must denote the same programs whatever the filter went through before: earlier commands
+        # deselect programs (impart / include leave their importers selected), then a negated triple is excluded or
+        # included (seeded change C05-d: the unmatched-span check restricted to the still selected programs)
+        n = 400 if ctx.tier == "quick" else 30000
+        for i in range(n):
+            db = filt.gen_db(rng, min_programs=3, import_p=1.0, edge_p=0.5)
+            pre = []
+            for _ in range(rng.choice([1, 1, 2])):
+                op = rng.choice(["impart", "impart", "include", "exclude"])
+                progs = list(db["programs"])
+                crit = rng.choice(progs) if rng.random() < 0.6 else filt.gen_criterion(rng, db, op, triple_p=0.0)
+                pre.append({"operation": op, "data": [crit]})
+            op = rng.choice(["exclude", "exclude", "include", "exclude all"])
+            last = {"operation": op, "data": [filt.gen_criterion(rng, db, op.split()[0], triple_p=1.0, negated=True, bad_ok=False)
+                                              for _ in range(rng.choice([1, 1, 2]))]}
+            cmds = pre + [last]
+            if rng.random() < 0.5:
+                # ... and the filter goes on: a later command reusing the subject or the object pattern
+                t = rng.choice(last["data"])
+                op2 = rng.choice(["include", "exclude", "include all"])
+                crit2 = rng.choice([t[0], t[2], [t[0], filt.gen_predicate(rng, None, False), t[2]]])
+                cmds.append({"operation": op2, "data": [crit2]})
+            eq, impl, model = filt.compare(db, cmds, drv)
+            ctx.count("negated triples after earlier commands on the same filter",
+                      repr((sorted(db["programs"]), cmds, impl.get("final"))), nontrivial=filt.nontrivial(impl, db))
+            if not eq:
+                n_dis += 1
+                if n_dis <= 3:
+                    filt.report_disagreement(ctx, "negated triple after earlier commands: run_pipeline differs from the specification", db, cmds, drv)
         ctx.cov["disagreements_checked"] = n_dis
     finally:
         drv.close()
     ctx.cov["rule"] = (
         "bounded-exhaustive: every assignment of {absent, 5 span multisets} to 3 taxa (A, A/x, B) of one program × 5×5 overlapping "
         "pattern pairs × 8 negated relation spellings (quick: a random slice of 2500 of the 43200); random: richer databases with import "
-        "DAGs, 1-2 negated triples per include/exclude (all). Non-trivial = the program has at least one taxon (mini) / the selection "
+        "DAGs, 1-2 negated triples per include/exclude (all); sequences: 1-2 earlier commands (impart / include / exclude, mostly on single "
+        "programs of a database with imports) followed by a negated-triple command on the same filter. Non-trivial = the program has at least one taxon (mini) / the selection "
         "changed and is neither empty nor everything (random)."
     )
     ctx.cov["trusted_base"] = TRUST
